@@ -83,6 +83,11 @@ type suppaRun struct {
 	archSrc *scriptSource
 	limVar  int
 	limit   float64
+	// reference return-to-base schedule (the property's own statement, computed independently)
+	refCountdown uint64
+	refStep      float64
+	refMin       float64
+	refFactor    float64
 }
 
 func relToCwd(p string) string {
@@ -201,7 +206,8 @@ func oneSuppaRun(c *Ctx, r *Rng, ds string, limVar int, limit float64, kind stri
 	}
 	cur := ex.Model().(*catchment.Model)
 	pot := ex.VerifPotentialModel().(*catchment.Model)
-	run := &suppaRun{c: c, ex: ex, cur: cur, pot: pot, limVar: limVar, limit: limit}
+	run := &suppaRun{c: c, ex: ex, cur: cur, pot: pot, limVar: limVar, limit: limit,
+		refCountdown: uint64(float64(initialStep)), refStep: float64(initialStep), refMin: float64(minRate), refFactor: rtbFactor}
 	run.cm = &CM{m: &cur.CoreModel, limVar: limVar, limit: limit}
 	for _, p := range cur.PlanningUnits() {
 		run.cm.pus = append(run.cm.pus, p)
@@ -323,6 +329,16 @@ func (run *suppaRun) iterate(r *Rng, n int) bool {
 		resCodeStr = "RD"
 	}
 	returned := ex.VerifLastReturnedToBase() == iterNo
+	// schedule: first after the initial number of iterations, then at intervals max(minimum, step*factor)
+	run.refCountdown--
+	wantReturn := run.refCountdown == 0
+	if wantReturn {
+		run.refStep = math.Max(run.refMin, run.refStep*run.refFactor)
+		run.refCountdown = uint64(run.refStep)
+	}
+	if wantReturn != returned {
+		c.Fail("C06:return-to-base-schedule", "suppa:return-to-base-schedule-wrong", fmt.Sprintf("iteration %d: return-to-base expected=%v happened=%v (initial step/min/factor give countdown %d next)", iterNo, wantReturn, returned, run.refCountdown), nil)
+	}
 	probStr := "-"
 	if !desirable {
 		probStr = approxFmt(ex.VerifCoolant().AcceptanceProbability())
